@@ -882,14 +882,32 @@ inverse!(JoinPat, input, asm, {
         input = &input[join_index + 1..];
         node
     } else {
+        fn contains_join(nodes: &[Node]) -> bool {
+            nodes.iter().any(|node| match node.inner() {
+                Prim(Join, _) => true,
+                Mod(Dip, args, _) => args.iter().any(|arg| contains_join(arg.node.as_slice())),
+                _ => false,
+            })
+        }
         fn invert_inner(mut input: &[Node], asm: &Assembly) -> InversionResult<Node> {
             let mut node = Node::empty();
             while !input.is_empty() {
-                if let [Mod(Dip, args, _), inp @ ..] = input {
+                if let [Mod(Dip, args, dip_span), inp @ ..] = input {
                     let [inner] = args.as_slice() else {
                         return generic();
                     };
-                    node.extend(invert_inner(inner.node.as_slice(), asm)?);
+                    let inner_inv = invert_inner(inner.node.as_slice(), asm)?;
+                    // A dipped function that is not a link in the chain of joins
+                    // was applied beneath the first joined value, and so must its inverse be
+                    match inner_inv.sig() {
+                        Ok(sig)
+                            if sig.args() == sig.outputs()
+                                && !contains_join(inner.node.as_slice()) =>
+                        {
+                            node.push(Mod(Dip, eco_vec![inner_inv.sig_node()?], *dip_span));
+                        }
+                        _ => node.extend(inner_inv),
+                    }
                     input = inp;
                     continue;
                 }
